@@ -208,7 +208,10 @@ def check_pair(a, b, ignored, form):
     out = []
     how = configure(ignored, form, (a, b))
     try:
-        d = nbd.diff_notebooks(a, b)
+        try:
+            d = nbd.diff_notebooks(a, b)
+        except Exception:
+            return out                 # no diff at all: C01's business (reported there), nothing to judge here
         pd = nbspace.to_plain(d)
         for sp, e in entries(pd):
             cat = category(sp)
